@@ -114,6 +114,13 @@ fn main() {
         series.push(gen_series(&mut rng, len));
     }
 
+    // long histories (a drift that needs hundreds of steps, a counter that wraps, a periodic re-normalisation): a few series
+    // of several hundred elements; windows are drawn from 1..=len+1 below, so both short and very long windows occur
+    for _ in 0..(if thorough { 10 } else { 3 }) {
+        let len = rng.range(300, 700) as usize;
+        let (xs, t) = gen_series(&mut rng, len);
+        series.push((xs, t.replace("style=", "style=long_")));
+    }
     // large-magnitude integers (null-free, so the i32 element type is exercised): each value fits i32, the squares do
     // not — the closures accumulate in f64, an accumulation moved into the element type would overflow here
     for i in 0..(if thorough { 60 } else { 12 }) {
